@@ -19,6 +19,7 @@ TECHNIQUE = ("exhaustive enumeration of the history tree (all sequences of <= d 
 TA, TB = "_a._tcp.local.", "_b._tcp.local."
 X, XU, Y, Z = "x._a._tcp.local.", "X._A._tcp.local.", "y._a._tcp.local.", "z._b._tcp.local."
 FLOOR = 1125
+T1, T2 = "_p._sub._a._tcp.local.", "_s._sub._a._tcp.local."  # two subtypes whose pointers lead to the same instances
 
 
 def actions(tier: str) -> List[tuple]:
@@ -74,6 +75,13 @@ def points(tier: str) -> List[Dict[str, Any]]:
                     for second in (X, XU):
                         pts.append({"delay": delay, "forced": None, "jitter": 0.0, "types": "a",
                                     "events": [(0, ("ptr", X, t1)), (gap, ("ptr", second, t2))]})
+    # one browser for two subtypes of one type: both pointers of a device lead to the same instance name
+    for delay in (1000, 10_000):
+        for first in (("ptr", X, 4500), ("ptr", X, 1200)):
+            pts.append({"delay": delay, "forced": None, "jitter": 0.0, "types": "subs", "events": [(20_000, first)]})
+            for second in ((40_000, ("ptr", Y, 4500)), (40_000, ("ptr1", X, 0)), (900_000, ("ptr1", X, 4500)),
+                           (3_375_000 + 1000, ("ptr", X, 4500))):
+                pts.append({"delay": delay, "forced": None, "jitter": 0.0, "types": "subs", "events": [(20_000, first), second]})
     # pointers already cached when the browser is created (younger / older than half their TTL, shortly before it starts)
     for delay in (1000, 10_000):
         for pre in ([(30_000, ("ptr", X, 4500))], [(30_000, ("ptr", X, 1200))], [(1_000, ("ptr", X, 4500))],
@@ -112,7 +120,7 @@ def run_point(p: Dict[str, Any], verbose: bool = False) -> Tuple[Optional[Dict[s
         zc = host.zc
         proto = host.protocol_for()
         lst = Lst(w)
-        types = [TA] if p["types"] == "a" else [TA, TB]
+        types = {"a": [TA], "ab": [TA, TB], "subs": [T1, T2]}[p["types"]]
         forced = {None: None, "QU": DNSQuestionType.QU, "QM": DNSQuestionType.QM}[p["forced"]]
         # record intervals: alias -> list of [type, created, ttl, end(reason)]
         intervals: List[Dict[str, Any]] = []
@@ -137,29 +145,29 @@ def run_point(p: Dict[str, Any], verbose: bool = False) -> Tuple[Optional[Dict[s
                 w.advance(gap)
             n += 1
             now = w.now_ms
-            tname = TB if inst == Z else TA
-            data = bytearray(wire.response([("PTR", tname, 1, ttl, inst)]))
+            # with two subtypes browsed, one datagram carries a pointer from each of them to the same instance; 'ptr1' is
+            # a pointer (or goodbye) from the first subtype only
+            tnames = ([T1, T2] if kind == "ptr" else [T1]) if p["types"] == "subs" else [TB if inst == Z else TA]
+            data = bytearray(wire.response([("PTR", tn, 1, ttl, inst) for tn in tnames]))
             struct.pack_into(">H", data, 0, n)
             proto.datagram_received(bytes(data), ("10.0.0.77", 5353))
             w.settle()
-            key = inst.lower()
-            if tname not in types:
-                continue
-            cur = live.get(key)
-            if cur is not None and cur["created"] + cur["ttl"] * 1000 <= now and cur.get("end") is None:
-                # expired but maybe not yet purged: the cache still holds it, so this datagram refreshes/withdraws it
-                pass
-            if ttl == 0:
-                if cur is not None:
-                    cur["end"], cur["why"] = now, "goodbye"
-                    live.pop(key)
-            else:
-                eff = max(ttl, FLOOR)
-                if cur is not None:
-                    cur["end"], cur["why"] = now, "refreshed"
-                iv = {"type": tname, "alias": key, "created": now, "ttl": eff, "end": None, "why": None}
-                intervals.append(iv)
-                live[key] = iv
+            for tname in tnames:
+                key = (tname, inst.lower())
+                if tname not in types:
+                    continue
+                cur = live.get(key)
+                if ttl == 0:
+                    if cur is not None:
+                        cur["end"], cur["why"] = now, "goodbye"
+                        live.pop(key)
+                else:
+                    eff = max(ttl, FLOOR)
+                    if cur is not None:
+                        cur["end"], cur["why"] = now, "refreshed"
+                    iv = {"type": tname, "alias": inst.lower(), "created": now, "ttl": eff, "end": None, "why": None}
+                    intervals.append(iv)
+                    live[key] = iv
         # run until everything has expired and been purged
         horizon = max([iv["created"] + iv["ttl"] * 1000 for iv in intervals] + [w.now_ms]) + 25_000 + delay
         horizon = max(horizon, t_start + 20_000 + 2 * delay)
